@@ -62,6 +62,9 @@ for _k, _L in enumerate((244, 245, 246, 250, 251, 300)):
     VARIANTS[12 + _k] = f'job names of {_L} characters with a common prefix of {_L - 1} characters (differ in the last one)'
 VARIANTS[18] = 'all jobs share one name of 250 characters'
 VARIANTS[19] = 'all jobs share one name of 300 characters'
+VARIANTS[20] = ('what follows a reference directly is a symbolic choice per mention: end of the statement, ";", '
+                '"_tmp", a letter, ".bak", "/sub", a closing double quote (at most one mention deviates)')
+SUFFIXES = ['', ';', '_tmp', 'x', '.bak', '/sub', '"']
 NAME_LEN = {12: 244, 13: 245, 14: 246, 15: 250, 16: 251, 17: 300, 18: 250, 19: 300}
 LOCAL_A = '/data/local/x.txt'
 
@@ -196,6 +199,9 @@ class SymInputs:
     def ext(self, j):
         return shapesym.choose(f'x_{j}', [0, 1])
 
+    def suffix(self, j, slot):
+        return shapesym.choose(f'sf_{j}_{slot}', SUFFIXES)
+
 
 class ConcreteInputs:
     """Replays a solver model: values are option INDICES within the same configuration."""
@@ -218,6 +224,9 @@ class ConcreteInputs:
     def ext(self, j):
         return int(self.d.get(f'x_{j}', 0))
 
+    def suffix(self, j, slot):
+        return SUFFIXES[int(self.d.get(f'sf_{j}_{slot}', 0))]
+
 
 # ---- the builder: real front-end code ---------------------------------------------------------------------
 class Tmpl:
@@ -239,6 +248,18 @@ class Tmpl:
 
     def text(self):
         return ''.join(s[1] if s[0] == 'lit' else s[2] for s in self.segs)
+
+
+def _emit2(t, op, args, key, res, sfx):
+    """Mention-last statement `<op>2 <k> <args> <reference><what follows directly>` (variant 20)."""
+    if sfx == '"':
+        t.lit(f'{op}2 0 {args} "').ref(key, res).lit('"')
+    elif sfx == ';':
+        t.lit(f'{op}2 0 {args} ').ref(key, res).lit('; :')
+    elif sfx == '':
+        t.lit(f'{op}2 0 {args} ').ref(key, res)
+    else:
+        t.lit(f'{op}2 {len(sfx)} {args} ').ref(key, res).lit(sfx)
 
 
 def _build(N, inp, var, obs, st, sb, fc):
@@ -320,9 +341,23 @@ def _build(N, inp, var, obs, st, sb, fc):
                     op, key, res = 'RG ', ('out', i, 'g'), pj.g
                     tail = f' {shlex.quote(ma)}=tok{i}.a {shlex.quote(mb)}=tok{i}.b'
             t1.lit(f'\n{NOISE}\n' if noise else '; ')
+            if var == 20:
+                slot = 'r1' if (kind, i) == rd[0] else 'r2'
+                sfx = inp.suffix(j, slot)
+                obs['shape'][f'sf_{j}_{slot}'] = sfx
+                _emit2(t1, op.split()[0], tail.strip(), key, res, sfx)
+                continue
             t1.lit(op + q).ref(key, res).lit(q + tail)
         t2 = Tmpl()
-        if ok in (1, 2, 5):
+        if var == 20 and ok in (1, 3):
+            sfx = inp.suffix(j, 'w')
+            obs['shape'][f'sf_{j}_w'] = sfx
+            if ok == 1:
+                _emit2(t2, 'W', f'tok{j}', ('out', j, 'o'), job.o, sfx)
+            else:
+                job.declare_resource_group(g={ma: '{root}.' + ma, mb: '{root}.' + mb})
+                _emit2(t2, 'WG', f'{ma}=tok{j}.a {mb}=tok{j}.b', ('out', j, 'g'), job.g, sfx)
+        elif ok in (1, 2, 5):
             if ok == 2:
                 job.o.add_extension(ext)
             t2.lit(f'W {pre.replace("in", "out")}').ref(('out', j, 'o'), job.o).lit(f' tok{j}')
@@ -573,6 +608,9 @@ def _constraints(cfg, N):
         special = z3.Or(z3.Not(base), anydef) if (defect and small) else z3.Not(base)
         for j in range(N):
             cons.append(z3.Implies(special, V(f'x_{j}') == 1))
+    if 20 in var_idx:
+        sf = [V(f'sf_{j}_{slot}') for j in range(N) for slot in ('w', 'r1', 'r2')]
+        cons.append(z3.Sum([z3.If(x != 0, 1, 0) for x in sf]) <= cfg.get('max_suffixed_mentions', 1))
     if cfg.get('x_free_jobs') is not None:
         plain = z3.And(base, z3.Not(anydef)) if (defect and small) else base
         for j in range(N):
